@@ -3,9 +3,8 @@ import os
 import vlib
 
 KINDS = {1: "rParamI [-5,5]", 3: "rParam (char, [0,127], driven with -128..127)", 4: "rParamF [-3.5,20.25]", 5: "rToggle",
-         6: "rOption (integer argument)", 10: "rString(4)"}
-# kinds 2 (no bounds), 7/8/9 (array forms) and 11 (option symbols) exist in the harness but are not run:
-# their queries did not finish (arrays, toggle query) or depend on an unmodelled libc path (enum_key)
+         6: "rOption (integer argument)", 10: "rString(4)", 7: "rArrayI[4] [0,9]", 8: "rArrayF[3] [0,1]", 9: "rArrayT[3]"}
+# kinds 2 (no bounds) and 11 (option symbols) exist in the harness but are not run (cbmc error / unmodelled libc path in enum_key)
 
 
 def build(ctx):
@@ -15,9 +14,10 @@ def build(ctx):
     inc = ['-DREPO_PORTS="%s/src/cpp/ports.cpp"' % vlib.REPO]
     rt = [os.path.join(vlib.STUBS, f) for f in ("cxxrt.c", "nd_cbmc.c", "libc_extra.c", "rtosc_shim.c", "fmt_stub.c", "atoi_model.c", "atof_model.c")] + [ctx.unit("rtosc"), ctx.unit("dispatch")]
     h = os.path.join(vlib.HARN, "C14", "h_param.cpp")
-    for k, what, query, vt in [(k_, w_, q_, v_) for k_, w_ in KINDS.items() for q_ in (0, 1) for v_ in ((0, 1) if k_ in (5, 9, 11) and not q_ else (0,)) if not (k_ == 5 and q_)]:
-        defs = ["-DKIND=%d" % k, "-DQUERY=%d" % query, "-DVT=%d" % vt]
-        name = "kind%02d-%s%s" % (k, "query" if query else "set", "-v%d" % vt if k in (5, 9, 11) and not query else "")
+    for k, what, query, vt, idx in [(k_, w_, q_, v_, i_) for k_, w_ in KINDS.items() for q_ in (0, 1) for v_ in ((0, 1) if k_ in (5, 9, 11) and not q_ else (0,))
+                                   for i_ in ({7: (0, 3), 8: (0, 2), 9: (1,)}.get(k_, (0,))) if not (k_ in (5, 9) and q_)]:
+        defs = ["-DKIND=%d" % k, "-DQUERY=%d" % query, "-DVT=%d" % vt, "-DIDX=%d" % idx]
+        name = "kind%02d-%s%s%s" % (k, "query" if query else "set", "-v%d" % vt if k in (5, 9, 11) and not query else "", "-i%d" % idx if k in (7, 8, 9) else "")
         q = ctx.add(vlib.Query(name, ["@IR@"] + rt, defines=defs, unwind=24, objbits=12, native_sources=[h], native_cxx=True, native_flags=inc + defs,
                                native_lib_exclude=["ports.cpp"], native_c_sources=[os.path.join(vlib.STUBS, "rtosc_shim.c")],
                                unwindset=["strlen.0:20", "strcmp.0:20", "atoi.0:4", "atoi.1:8", "atof.0:4", "atof.1:8", "atof.2:8"],
@@ -36,4 +36,4 @@ def build(ctx):
                        "recording RtData subclass overrides the variadic reply/broadcast and encodes into 64-byte buffers with the real rtosc_vmessage",
                        "atoi/atof environment models for the metadata literals; floats are not NaN"]
     ctx.stubs = ["stubs/cxxrt.c", "stubs/atoi_model.c", "stubs/atof_model.c", "stubs/rtosc_shim.c (ABI shims)"]
-    ctx.outside = ["array forms (rArrayI/F/T: queries do not finish within the budget), option symbols, rParamI without bounds, rToggle query", "rArrayOption, rParams", "ranges other than those listed", "sequences of sets (single step from an arbitrary stored state is covered)"]
+    ctx.outside = ["option symbols, rParamI without bounds, rToggle/rArrayT query", "rArrayOption, rParams", "array indices other than first/last (rArrayI, rArrayF) and the middle one (rArrayT)", "ranges other than those listed", "sequences of sets (single step from an arbitrary stored state is covered)"]
